@@ -4,6 +4,7 @@ package shipsim1
 
 import (
 	"errors"
+	"os"
 	"fmt"
 	"strings"
 	"testing"
@@ -19,6 +20,10 @@ type Step struct {
 	In     *simkit.Input `json:"in,omitempty"`
 	D      time.Duration `json:"d,omitempty"`
 	Settle bool          `json:"settle"`
+	// Late: the frame was taken from the socket just before the connection got closed locally and is handed
+	// to the connection afterwards (the read pump checks "closed?" before it reads, not between read and
+	// delivery); at most one frame per scenario can be in that position
+	Late bool `json:"late,omitempty"`
 }
 
 type Scenario struct {
@@ -112,7 +117,8 @@ func run(t *testing.T, sc *Scenario, wd *vc.Watchdog) (res runResult) {
 			}()
 			f()
 		}
-		deliver := func(in *simkit.Input) {
+		lateUsed := false
+		deliver := func(in *simkit.Input, late bool) {
 			st := int(ep.Conn.VerifState())
 			uid := in.UID
 			if in.Class != "data" {
@@ -121,6 +127,13 @@ func run(t *testing.T, sc *Scenario, wd *vc.Watchdog) (res runResult) {
 			praw, pkind := simkit.PresentedID(in.Msg)
 			desc := in.Class + "|" + in.Sub + "|" + uid + "|" + pkind + "|" + praw
 			if ep.W.Closed() {
+				if late && !lateUsed && in.Class != "data" {
+					lateUsed = true
+					l.Add("E", "late-frame", st, false, in.Class+"|"+in.Sub)
+					l.Add("E", "in", st, true, desc)
+					call("deliver", func() { ep.Conn.HandleIncomingWebsocketMessage(in.Msg) })
+					return
+				}
 				// the read pump of a closed connection delivers nothing any more
 				l.Add("E", "in", st, false, desc)
 				return
@@ -149,18 +162,18 @@ func run(t *testing.T, sc *Scenario, wd *vc.Watchdog) (res runResult) {
 						_, want := simkit.Data(in.UID, dataN)
 						res.Wants[in.UID] = want
 					}
-					deliver(in)
+					deliver(in, st.Late)
 				} else {
 					l.Add("E", "noop", int(ep.Conn.VerifState()), false, "coop")
 				}
 			case "msg":
-				deliver(st.In)
+				deliver(st.In, st.Late)
 			case "data":
 				dataN++
 				uid := fmt.Sprintf("d-%d", dataN)
 				in, want := simkit.Data(uid, dataN)
 				res.Wants[uid] = want
-				deliver(&in)
+				deliver(&in, false)
 			case "data-burst":
 				// a flood of early data frames (st.D carries the count)
 				for k := 0; k < int(st.D); k++ {
@@ -168,7 +181,7 @@ func run(t *testing.T, sc *Scenario, wd *vc.Watchdog) (res runResult) {
 					uid := fmt.Sprintf("d-%d", dataN)
 					in, want := simkit.Data(uid, dataN)
 					res.Wants[uid] = want
-					deliver(&in)
+					deliver(&in, false)
 				}
 			case "sleep":
 				l.Add("E", "sleep", int(st.D/time.Millisecond), false, st.D.String())
@@ -236,6 +249,34 @@ func run(t *testing.T, sc *Scenario, wd *vc.Watchdog) (res runResult) {
 
 var sleeps = []time.Duration{time.Second, 11 * time.Second, 31 * time.Second, 61 * time.Second, 67 * time.Second, 10 * time.Minute}
 
+// boundarySleeps end exactly when a timer armed by the previous step fires (init 10 s, hello 60 s, prolongation
+// reply 66 s, waiting-30 s for the waiting values of the alphabet): the step is not settled, so the next
+// operation runs at the same virtual instant as the timeout handling, in parallel with it
+// In parallel only when the engine runs for C04 (parallelBoundary); for the other properties these sleeps are
+// settled like every other one: the timeout is handled first, then the next operation runs.
+var parallelBoundary = os.Getenv("VERIF_PROP") == "C04"
+
+func isBoundary(d time.Duration) bool {
+	for _, b := range boundarySleeps {
+		if b == d {
+			return true
+		}
+	}
+	return false
+}
+
+// hasParallelBoundary: an operation of this scenario runs in parallel with a timeout handling
+func (s *Scenario) hasParallelBoundary() bool {
+	for i, st := range s.Steps {
+		if st.Op == "sleep" && !st.Settle && isBoundary(st.D) && i+1 < len(s.Steps) {
+			return true
+		}
+	}
+	return false
+}
+
+var boundarySleeps = []time.Duration{10 * time.Second, 60 * time.Second, 66 * time.Second, 30 * time.Second, 100 * time.Millisecond, time.Millisecond, 999 * time.Millisecond}
+
 func coopScript(server, trusted bool) []Step {
 	var s []Step
 	c := Step{Op: "coop", Settle: true}
@@ -259,9 +300,11 @@ func randomStep(r *vc.Rand, alpha []simkit.Input) Step {
 	switch {
 	case x < 55:
 		st.Op = "coop"
+		st.Late = r.Chance(1, 12)
 	case x < 65:
 		in := vc.Pick(r, alpha)
 		st.Op, st.In = "msg", &in
+		st.Late = r.Chance(1, 12)
 	case x < 75:
 		in := simkit.Mutate(r, vc.Pick(r, alpha))
 		st.Op, st.In = "msg", &in
@@ -269,8 +312,10 @@ func randomStep(r *vc.Rand, alpha []simkit.Input) Step {
 		st.Op = "data"
 	case x < 83:
 		st.Op, st.D = "data-burst", time.Duration(vc.Pick(r, []int{3, 10, 70, 130}))
-	case x < 89:
+	case x < 87:
 		st.Op, st.D = "sleep", vc.Pick(r, sleeps)
+	case x < 89:
+		st.Op, st.D, st.Settle = "sleep", vc.Pick(r, boundarySleeps), !parallelBoundary
 	case x < 92:
 		st.Op = "approve"
 	case x < 93:
@@ -304,6 +349,9 @@ func opsAlphabet() []Step {
 	}
 	for _, d := range sleeps {
 		out = append(out, Step{Op: "sleep", D: d, Settle: true})
+	}
+	for _, d := range boundarySleeps {
+		out = append(out, Step{Op: "sleep", D: d, Settle: !parallelBoundary})
 	}
 	for _, n := range []int{10, 70, 200} {
 		out = append(out, Step{Op: "data-burst", D: time.Duration(n), Settle: true})
@@ -360,6 +408,20 @@ func (sp *sysSpace) build(idx int, r *vc.Rand) *Scenario {
 			sc.Steps = append(sc.Steps, Step{Op: "msg", In: &in, Settle: true})
 		} else {
 			sc.Steps = append(sc.Steps, sp.ops[c.input-len(sp.alpha)])
+		}
+	}
+	if n := len(sc.Steps); n > 0 && sc.Steps[n-1].Op == "sleep" && isBoundary(sc.Steps[n-1].D) {
+		sc.Steps = append(sc.Steps, Step{Op: vc.Pick(r, []string{"disconnect", "unregister", "terr", "cancel", "approve", "coop"}), Settle: true})
+	}
+	if n := len(sc.Steps); n > 0 && r.Chance(1, 2) {
+		switch sc.Steps[n-1].Op {
+		case "disconnect", "unregister", "terr":
+			// the frame the pump already held when the connection was closed, then whatever follows
+			sc.Steps = append(sc.Steps, Step{Op: "coop", Settle: true, Late: true})
+			if r.Bool() {
+				in := vc.Pick(r, sp.alpha)
+				sc.Steps[len(sc.Steps)-1] = Step{Op: "msg", In: &in, Settle: true, Late: true}
+			}
 		}
 	}
 	if r.Chance(1, 3) {
